@@ -4,7 +4,7 @@ SHELL := /bin/bash
 COQ_TIMEOUT ?= 1800
 J ?= 12
 
-.PHONY: setup all gen coq extract driver clean prectable onlinegen offlinegen offlinegen-check offlinegen-mutants denseonlinegen denseonlinegen-check denseonlinegen-mutants pastifiergen pastifiergen-check pastifiergen-mutants coqchk static
+.PHONY: setup all gen coq extract driver clean prectable onlinegen offlinegen offlinegen-check offlinegen-mutants denseonlinegen denseonlinegen-check denseonlinegen-mutants pastifiergen pastifiergen-check pastifiergen-mutants coqchk coqchk-float static
 
 # `make all` never stops at the first failure: a source file of nickovic/rtamt that a translator refuses, or a proof that no longer
 # checks against the regenerated text, must break the obligations of the properties that depend on it and of no other property.
@@ -119,6 +119,10 @@ build/model_driver: build/extract/model.ml coq/extract/driver.ml
 # independent re-check of every property file and everything it depends on, with the axioms they rely on
 coqchk: coq
 	cd coq && timeout 3000 coqchk -silent -o -Q theories RV $(foreach n,01 02 03 04 05 06 07 08 09 10 11 12 13 14 15 16 17 18 19 20,RV.Props.C$(n)) 2>&1 | tee COQCHK.txt | tail -15
+
+# the same for the float instance (Flocq: the four axioms of the standard library's real numbers, nothing else)
+coqchk-float: coq
+	cd coq && timeout 3000 coqchk -silent -o -Q theories RV RV.Props.FloatInstance 2>&1 | tee COQCHK_FLOAT.txt | tail -15
 
 # no Admitted/admit/Axiom/Parameter/Conjecture/kernel switches; no Variable/Hypothesis/Context outside a Section
 static:
